@@ -35,6 +35,12 @@ pub struct Script {
     pub pending: Option<(Vec<f64>, Option<f64>)>,
     /// what to do when the directives run out
     pub tail: char,
+    /// size of the controlled downhill move of directive 'D'
+    pub down: f64,
+    /// number of proposals that were kept, per block of `block` proposals (truth, from the cells)
+    pub block: usize,
+    pub kept: Vec<usize>,
+    pub seen: usize,
 }
 
 pub fn next_down(x: f64) -> f64 {
@@ -57,6 +63,10 @@ impl Script {
             in_flight: false,
             pending: None,
             tail,
+            down: 0.1,
+            block: 0,
+            kept: vec![],
+            seen: 0,
         }
     }
     fn directive(&mut self) -> char {
@@ -86,7 +96,8 @@ impl Script {
             'E' => Some(h),
             'w' => Some(next_down(h)),
             'v' => Some(h - 1e-10),
-            'W' => Some(h - 1.),
+'W' => Some(h - 1.),
+            'D' => Some(h - self.down),
             'U' => None,
             _ => Some(h),
         };
@@ -95,6 +106,18 @@ impl Script {
     }
     /// called at the decide event with the true cell contents
     fn settle(&mut self, truth: &[f64]) {
+        if self.block > 0 {
+            let b = self.seen / self.block;
+            while self.kept.len() <= b {
+                self.kept.push(0);
+            }
+            if let Some((pvec, _)) = &self.pending {
+                if bits_eq(truth, pvec) && !bits_eq(truth, &self.held_vec) {
+                    self.kept[b] += 1;
+                }
+            }
+            self.seen += 1;
+        }
         if let Some((pvec, pscore)) = self.pending.take() {
             if bits_eq(truth, &pvec) && !bits_eq(truth, &self.held_vec) {
                 if let Some(s) = pscore {
